@@ -16,7 +16,7 @@ def BOUND(tier):
 
 
 def RULE(tier):
-    return ("stateless exploration of the real Doist/DoDoer/Doer code: every doer forest shape (depth<=%s) x every "
+    return ("" if tier == "quick" else sched.THOROUGH_NOTE + ". ") + ("stateless exploration of the real Doist/DoDoer/Doer code: every doer forest shape (depth<=%s) x every "
             "execution with <= %d deviations from the default answers (config tock/start/limit, leaf kind, per-step "
             "yield/return/raise/KeyboardInterrupt/extend/remove/failing enter). Monitor: per-doer automaton "
             "enter recur* (clean|cease|abort) exit. distinct_nontrivial = executions with >=1 deviation whose full "
@@ -41,4 +41,4 @@ def harness(job, ch):
                    sample=dict(shape=repr(job[1]), trace=[list(map(str, e[:3])) for e in w.trace[:30]]))
 
 
-run_job, replay = standard(harness, BOUND)
+run_job, replay = standard(harness, BOUND, job_bound=sched.tier_bound)
